@@ -89,6 +89,7 @@ func c03BucketsOK() bool {
 
 func c03Impl(in []int64) []int64 {
 	var r setz.RoaringBitmap // the zero value must be usable
+	held := r.All()          // taken from the zero value
 	var out []int64
 	for i := 0; i+c03W-1 < len(in); i += c03W {
 		c, a, b, n, d, e := in[i], in[i+1], in[i+2], in[i+3], in[i+4], in[i+5]
@@ -114,12 +115,17 @@ func c03Impl(in []int64) []int64 {
 			out = append(out, PutList(l)...)
 		case 6:
 			var l []int64
-			for v := range r.All() {
+			seq := r.All()
+			if held != nil && (i/c03W)%2 == 0 {
+				seq = held // obtained at an EARLIER point of the case: a view of the set when walked, not when made
+			}
+			for v := range seq {
 				l = append(l, int64(v))
 				if a > 0 && int64(len(l)) >= a {
 					break
 				}
 			}
+			held = r.All()
 			out = append(out, PutList(l)...)
 		case 7:
 			for _, v := range c03Vals(a, b, n, d, e) {
